@@ -9,6 +9,7 @@ CONSTANTS
   WithWrong = TRUE
   MaxBad = 2
   WithUnknown = FALSE
+  WithGuard = FALSE
   WithUpd = TRUE
   MaxMut = 1
   MaxLife = 2
